@@ -141,6 +141,12 @@ public:
 
     explicit FIRResampler(int out_fs, int in_fs, const arr_real& h);
 
+    //a copy gets its own converter (filter history)
+    FIRResampler(const FIRResampler& rhs);
+    FIRResampler& operator=(const FIRResampler& rhs);
+    FIRResampler(FIRResampler&& rhs) noexcept = default;
+    FIRResampler& operator=(FIRResampler&& rhs) noexcept = default;
+
     enum class Mode
     {
         Bypass,
